@@ -47,6 +47,7 @@ class Contract:
         self.defaults = kw.pop('defaults', {})
         self.tags = kw.pop('tags', {})
         self.ghost = kw.pop('ghost', {})           # anchor text -> {'before': [stmts], 'after': [stmts]} ghost code
+        self.gen_depth = kw.pop('gen_depth', None)   # nesting depth of generated trees for the native monitor
         self.atoms = kw.pop('atoms', [])          # extra key atoms for the native generator
         if kw:
             raise TypeError('unknown contract options %s' % list(kw))
